@@ -66,7 +66,17 @@ func runCap(t *testing.T, sc *CapScenario, tr *vh.Tracer) (hang bool) {
 		reg := regfake.New(host, regfake.Profile{Referrers: sc.Truth, DigestHdr: true})
 		reg.SeedManifest(repo, ocispec.MediaTypeImageManifest, u.subjBody[0], "")
 		for _, r := range sc.Pre {
-			reg.SeedManifest(repo, ocispec.MediaTypeImageManifest, u.refBody[r], "")
+			if sc.Truth {
+				reg.SeedManifest(repo, ocispec.MediaTypeImageManifest, u.refBody[r], "")
+				continue
+			}
+			// without the Referrers API the earlier referrers were pushed by a client that maintains the referrers-tag index
+			setup, _ := remote.NewRepository(host + "/" + repo)
+			setup.PlainHTTP, setup.Client = true, &http.Client{Transport: reg}
+			setup.SetReferrersCapability(false)
+			if err := setup.Push(context.Background(), u.refs[r], bytes.NewReader(u.refBody[r])); err != nil {
+				t.Fatalf("capability round %d: setup push: %v", sc.ID, err)
+			}
 		}
 		kinds := []string{}
 		for _, op := range sc.Ops {
@@ -143,7 +153,31 @@ func runCap(t *testing.T, sc *CapScenario, tr *vh.Tracer) (hang bool) {
 			res := call("probe", CapOp{Kind: k})
 			tr.Emit(map[string]any{"e": "ret", "op": len(sc.Ops) + 1 + i, "actor": "probe", "kind": k, "r": 0, "res": res})
 		}
-		tr.Emit(map[string]any{"e": "end"})
+		// the quiescent listing through the referrers-tag index, and the referrers that are in the registry
+		listed, live := []int{}, []int{}
+		lister, _ := remote.NewRepository(host + "/" + repo)
+		lister.PlainHTTP, lister.Client = true, &http.Client{Transport: reg}
+		lister.SetReferrersCapability(false)
+		lister.Referrers(context.Background(), u.subjects[0], "", func(ds []ocispec.Descriptor) error {
+			for _, d := range ds {
+				for r := 1; r < len(u.refs); r++ {
+					if u.refs[r].Digest == d.Digest {
+						listed = append(listed, r)
+					}
+				}
+			}
+			return nil
+		})
+		present := map[string]bool{}
+		for _, m := range reg.Snapshot().Manifests {
+			present[m[1]] = true
+		}
+		for r := 1; r < len(u.refs); r++ {
+			if present[u.refs[r].Digest.String()] {
+				live = append(live, r)
+			}
+		}
+		tr.Emit(map[string]any{"e": "end", "listed": listed, "live": live})
 	}
 	body()
 	return hang
@@ -212,6 +246,18 @@ func TestCapability(t *testing.T) {
 			run(sc)
 		}
 	} else {
+		// the first operations of a Repository that does not know the capability yet, at once: two deletes (one waits
+		// on the probe of the other), with a listing or a push next to them
+		for i := 0; i < vh.EnvInt("VH_CAPFIRST", 60); i++ {
+			sc := CapScenario{Truth: i%4 == 3, Pre: []int{1, 2}, Seed: rng.Int63(), Ops: []CapOp{{"delete", 1}, {"delete", 2}}}
+			switch i % 3 {
+			case 1:
+				sc.Ops = append(sc.Ops, CapOp{"referrers", 0})
+			case 2:
+				sc.Ops = append(sc.Ops, CapOp{"push", 3})
+			}
+			run(sc)
+		}
 		for i := 0; i < vh.EnvInt("VH_CAP", 400); i++ {
 			run(genCap(rng))
 		}
